@@ -383,4 +383,34 @@ func CountBy
   loop 0 invariant[from]  forall key K :: {kcnt(keyer, slice, rangeindex + 1, key)} kcnt(keyer, slice, rangeindex + 1, key) > 0 ==> (exists j :: 0 <= j && j <= rangeindex && keyer(slice[j]) == key)
   loop 1 invariant -1 <= rangeindex && rangeindex < len(orderedKeys) && fresh(groups) && len(groups) == len(orderedKeys)
   loop 1 invariant forall i :: 0 <= i && i <= rangeindex ==> groups[i].Key == orderedKeys[i] && groups[i].Count == m[orderedKeys[i]]
+
+// members of one key's group in original order: the j-th element v of s[0:k] with keyer(v) == key
+spec gat(keyer func, s []V, k int, key K, j int) elem(s)
+axiom gat_step(keyer, s, k, key, j): k >= 0 ==> ident(gat(keyer, s, k+1, key, j), ite(j < kcnt(keyer, s, k, key) || keyer(s[k]) != key, gat(keyer, s, k, key, j), s[k]))
+
+func GroupBy
+  property C14
+  ensures[len]     len(result) == klen(keyer, slice, len(slice))
+  ensures[keys]    forall i :: 0 <= i && i < len(result) ==> result[i].Key == kat(keyer, slice, len(slice), i)
+  ensures[sizes]   forall i :: 0 <= i && i < len(result) ==> len(result[i].Values) == kcnt(keyer, slice, len(slice), result[i].Key)
+  ensures[members] forall i, j :: {mark(i), mark(j)} mark(i) && mark(j) && 0 <= i && i < len(result) && 0 <= j && j < len(result[i].Values) ==> result[i].Values[j] == gat(keyer, slice, len(slice), result[i].Key, j)
+  ensures[fresh]   fresh(result) && (forall i :: 0 <= i && i < len(result) ==> fresh(result[i].Values))
+  loop 0 use klen_zero(keyer, slice)
+  loop 0 use klen_step(keyer, slice, rangeindex + 1)
+  loop 0 use forall j :: {kat(keyer, slice, rangeindex + 2, j)} kat_step(keyer, slice, rangeindex + 1, j)
+  loop 0 use forall key K :: {kcnt(keyer, slice, 0, key)} kcnt_zero(keyer, slice, key)
+  loop 0 use forall key K :: {kcnt(keyer, slice, rangeindex + 2, key)} kcnt_step(keyer, slice, rangeindex + 1, key)
+  loop 0 use forall key K, j int :: {gat(keyer, slice, rangeindex + 2, key, j)} gat_step(keyer, slice, rangeindex + 1, key, j)
+  loop 0 invariant -1 <= rangeindex && rangeindex < len(slice) && m != nil && fresh(m) && (orderedKeys == nil || fresh(orderedKeys))
+  loop 0 invariant len(orderedKeys) == klen(keyer, slice, rangeindex + 1)
+  loop 0 invariant forall j :: 0 <= j && j < len(orderedKeys) ==> orderedKeys[j] == kat(keyer, slice, rangeindex + 1, j)
+  loop 0 invariant forall key K :: {has(m, key)} {kcnt(keyer, slice, rangeindex + 1, key)} has(m, key) == (kcnt(keyer, slice, rangeindex + 1, key) > 0) && len(m[key]) == kcnt(keyer, slice, rangeindex + 1, key)
+  loop 0 invariant[own]   forall key K :: {has(m, key)} has(m, key) ==> fresh(m[key]) && allocated(m[key]) && base(m[key]) != base(orderedKeys)
+  loop 0 invariant[okeys] forall j :: 0 <= j && j < len(orderedKeys) ==> has(m, orderedKeys[j])
+  loop 0 invariant[sep]   forall k1 K, k2 K :: {has(m, k1), has(m, k2)} has(m, k1) && has(m, k2) && k1 != k2 ==> base(m[k1]) != base(m[k2])
+  loop 0 invariant[elems] forall key K, j int :: {gat(keyer, slice, rangeindex + 1, key, j)} has(m, key) && 0 <= j && j < len(m[key]) ==> m[key][j] == gat(keyer, slice, rangeindex + 1, key, j)
+  loop 0 invariant[seen]  forall j :: 0 <= j && j <= rangeindex ==> kcnt(keyer, slice, rangeindex + 1, keyer(slice[j])) > 0
+  loop 0 invariant[from]  forall key K :: {kcnt(keyer, slice, rangeindex + 1, key)} kcnt(keyer, slice, rangeindex + 1, key) > 0 ==> (exists j :: 0 <= j && j <= rangeindex && keyer(slice[j]) == key)
+  loop 1 invariant -1 <= rangeindex && rangeindex < len(orderedKeys) && fresh(groups) && len(groups) == len(orderedKeys)
+  loop 1 invariant forall i :: 0 <= i && i <= rangeindex ==> groups[i].Key == orderedKeys[i] && same(groups[i].Values, m[orderedKeys[i]])
 @*/
